@@ -30,6 +30,11 @@ DivModPairOk(pr, q, r) ==
   ELSE IF I64!IsZero(pr.b.b8) THEN SameRes(q, ErrRes("DIVIDE_BY_ZERO")) /\ SameRes(r, ErrRes("DIVIDE_BY_ZERO"))
   ELSE q.t = "int" /\ r.t = "int" /\ I64!DivModOk(pr.a.b8, pr.b.b8, q.b8, r.b8)
 
+\* two results that must be the same value (any two NaN are the same)
+Same2(a, b) == /\ a.t = b.t
+               /\ CASE a.t = "int" -> a.b8 = b.b8 [] a.t = "err" -> a.name = b.name [] a.t = "null" -> a.ty = b.ty [] a.t = "bool" -> a.v = b.v
+                     [] a.t = "dec" -> (a.cls = "nan" /\ b.cls = "nan") \/ (a.cls = b.cls /\ a.s = b.s /\ a.m = b.m /\ a.e = b.e)
+                     [] OTHER -> FALSE
 PairOk(st, pr, got) ==
   IF st.kind = "num" /\ pr.a.k = "i" THEN got.t = "dec" /\ got.cls = "fin" /\ [t |-> "dec", cls |-> "fin", s |-> got.s, m |-> got.m, e |-> got.e] \in NumOfIntSet(pr.a)
   ELSE IF st.kind = "num" THEN got.t \in {"dec", "null"}
@@ -38,6 +43,7 @@ PairOk(st, pr, got) ==
 BadPairs(sc) ==
   LET st == sc.steps[1]  o == sc.obs[1] IN
   IF st.kind = "divmod" THEN {j \in DOMAIN st.pairs : ~DivModPairOk(st.pairs[j], o.res[j], o.res2[j])}
+  ELSE IF st.kind = "same2" THEN {j \in DOMAIN st.pairs : ~Same2(o.res[j], o.res2[j])}
   ELSE {j \in DOMAIN st.pairs : ~PairOk(st, st.pairs[j], o.res[j])}
 
 Init == i \in 1..N /\ k = 0
